@@ -187,6 +187,30 @@ func setup() {
 	_ = afero.WriteFile(memfs, "/sc.yaml", []byte("requests:\n  - name: r\n    method: GET\n    uri: /\nscenarios:\n  - name: s\n    requests: [r]\n"), 0o644)
 }
 
+// rawKeyMutants: a component's section handed over as the YAML decoder produces it when a key is not
+// a string (map[interface{}]interface{} with an integer or boolean key). Configuration files read
+// through viper never look like that (viper turns every key into a string, and "1" is then an unknown
+// key like any other), but config.Decode is also called with maps decoded by yaml directly; an
+// unknown key of another type is as unknown as a misspelled one.
+func rawKeyMutants(name string, base map[string]any) []mutant {
+	var out []mutant
+	walk(base, nil, func(p path, v any) {
+		m, ok := v.(map[string]any)
+		if !ok || m["type"] == nil || len(p) == 0 {
+			return
+		}
+		for _, key := range []any{1, true, 1.5} {
+			raw := map[any]any{}
+			for k, e := range m {
+				raw[k] = deepCopy(e)
+			}
+			raw[key] = "x"
+			out = append(out, mutant{Base: name, Kind: "nonstring-key", Path: fmt.Sprintf("%s/%v(%T)", p.String(), key, key), conf: mutate(base, p, raw).(map[string]any), wantErr: true})
+		}
+	})
+	return out
+}
+
 func parse(text string) (map[string]any, error) {
 	v := viper.New()
 	v.SetConfigType("yaml")
@@ -1144,6 +1168,9 @@ func TestWorker(t *testing.T) {
 			out.Sample(map[string]any{"base": n, "fingerprint_head": firstLine(fp1)})
 		}
 		for _, m := range append(mutants(n, base), constraintMutants(n, base)...) {
+			jobs = append(jobs, job{m, fp1})
+		}
+		for _, m := range rawKeyMutants(n, base) {
 			jobs = append(jobs, job{m, fp1})
 		}
 	}
